@@ -565,11 +565,11 @@ Proof.
   - apply IH. lia.
 Qed.
 
-Lemma pad_to_map_nth ev n l i : (i < n)%nat -> (i < length l)%nat ->
+Lemma pad_to_map_nth (ev : text -> text) n (l : list text) i : (i < n)%nat -> (i < length l)%nat ->
   nth i (pad_to n (map ev l)) [] = ev (nth i l []).
 Proof.
   intros Hi Hl. rewrite pad_to_nth by exact Hi.
-  rewrite (nth_indep (map ev l) [] (ev [])) by (rewrite map_length; exact Hl).
+  rewrite (nth_indep (map ev l) (@nil N) (ev (@nil N))) by (rewrite map_length; exact Hl).
   apply map_nth.
 Qed.
 
@@ -696,3 +696,114 @@ Proof.
   exists 2, [3; 2], 1, [[121]], [(2, [[111]; [117]]); (3, [[115]])].
   vm_compute. repeat split; discriminate.
 Qed.
+
+(* ---- ForContact: the part that holds -------------------------------------------------------------------------- *)
+
+Lemma lookup_bc_map (f : lang -> msg_out) ls l :
+  lookup_bc (map (fun x => (x, f x)) ls) l = if lang_in l ls then Some (f l) else None.
+Proof.
+  unfold lang_in. induction ls as [|x ls IH]; cbn; [reflexivity|].
+  rewrite IH. destruct (existsb (N.eqb l) ls).
+  - rewrite Bool.orb_true_r. reflexivity.
+  - rewrite Bool.orb_false_r. destruct (N.eqb_spec l x) as [->|_]; reflexivity.
+Qed.
+
+Lemma fc_merge_full acc l t :
+  o_text acc <> [] -> o_atts acc <> [] -> o_qrs acc <> [] -> fc_merge acc l t = acc.
+Proof.
+  destruct acc as [tx at_ qr lg]. cbn. intros Ht Ha Hq. unfold fc_merge. cbn.
+  destruct tx as [|c tx]; [contradiction|]. destruct at_ as [|a at_]; [contradiction|].
+  destruct qr as [|q qr]; [contradiction|]. reflexivity.
+Qed.
+
+Lemma get_text_in_head l rest base native tr t ts :
+  l <> base -> item_translation tr l = t :: ts ->
+  get_text_in (l :: rest) base native tr = (t :: ts, l).
+Proof.
+  intros Hne Hit. cbn [get_text_in]. destruct (N.eqb_spec l base) as [E|_]; [contradiction|].
+  rewrite Hit. reflexivity.
+Qed.
+
+(* a recipient whose language is allowed and is COMPLETELY translated (a non-empty translation of each of the three
+   parts, the text's first element not empty) gets from the broadcast exactly what the fallback chain gives that
+   contact, language included — the known finding needs a language of the chain that is only PARTLY translated *)
+Lemma for_contact_complete_language rl allowed base loc_langs m t ts a as_ q qs :
+  rl <> nil_lang -> lang_in rl allowed = true -> rl <> base -> lang_in rl loc_langs = true ->
+  item_translation (tr_text m) rl = t :: ts -> t <> [] ->
+  item_translation (tr_atts m) rl = a :: as_ ->
+  item_translation (tr_qrs m) rl = q :: qs ->
+  let o := for_contact rl allowed base (broadcast_translations base loc_langs m) in
+  let w := evaluate_message rl allowed base m in
+  o_text o = t /\ o_text w = t /\ o_atts o = o_atts w /\ o_qrs o = o_qrs w /\ o_lang o = rl /\ o_lang w = rl.
+Proof.
+  intros Hnil Hal Hnb Hloc Ht Htne Ha Hq.
+  (* the chain of the statement *)
+  assert (Hw : evaluate_message rl allowed base m
+               = {| o_text := t; o_atts := a :: as_; o_qrs := q :: qs; o_lang := rl |}).
+  { unfold evaluate_message, evaluate_message_gen, get_text, get_languages, merged_default.
+    destruct (N.eqb_spec rl nil_lang) as [E|_]; [contradiction|]. cbn [negb andb]. rewrite Hal.
+    destruct (N.eqb_spec rl nil_lang) as [E|_]; [contradiction|]. cbn [app].
+    rewrite (get_text_in_head rl _ base [m_text m] (tr_text m) t ts Hnb Ht).
+    rewrite (get_text_in_head rl _ base (m_atts m) (tr_atts m) a as_ Hnb Ha).
+    rewrite (get_text_in_head rl _ base (m_qrs m) (tr_qrs m) q qs Hnb Hq).
+    cbn [hd]. unfold pick_lang. destruct t as [|c t']; [contradiction|]. reflexivity. }
+  (* what the event holds for rl, and what ForContact makes of it *)
+  assert (He : evaluate_message_in [rl; base] base m
+               = {| o_text := t; o_atts := a :: as_; o_qrs := q :: qs; o_lang := rl |}).
+  { unfold evaluate_message_in, evaluate_message_in_gen.
+    rewrite (get_text_in_head rl _ base [m_text m] (tr_text m) t ts Hnb Ht).
+    rewrite (get_text_in_head rl _ base (m_atts m) (tr_atts m) a as_ Hnb Ha).
+    rewrite (get_text_in_head rl _ base (m_qrs m) (tr_qrs m) q qs Hnb Hq).
+    cbn [hd]. unfold pick_lang. destruct t as [|c t']; [contradiction|]. reflexivity. }
+  assert (Ho : for_contact rl allowed base (broadcast_translations base loc_langs m)
+               = {| o_text := t; o_atts := a :: as_; o_qrs := q :: qs; o_lang := rl |}).
+  { unfold for_contact, for_contact_langs, broadcast_translations, broadcast_translations_gen.
+    destruct (N.eqb_spec rl nil_lang) as [E|_]; [contradiction|]. cbn [negb andb]. rewrite Hal.
+    cbn [app fold_left].
+    change (fun l => (l, evaluate_message_in_gen (fun t0 => t0) (fun l0 => l0) (fun l0 => l0) [l; base] base m))
+      with (fun l => (l, evaluate_message_in [l; base] base m)).
+    rewrite !lookup_bc_map.
+    assert (Hin : lang_in rl (base :: loc_langs) = true).
+    { unfold lang_in in *. cbn. rewrite Hloc. apply Bool.orb_true_r. }
+    rewrite Hin, He.
+    set (full := fc_merge {| o_text := []; o_atts := []; o_qrs := []; o_lang := nil_lang |} rl
+                          {| o_text := t; o_atts := a :: as_; o_qrs := q :: qs; o_lang := rl |}).
+    assert (Hfull : full = {| o_text := t; o_atts := a :: as_; o_qrs := q :: qs; o_lang := rl |}).
+    { unfold full, fc_merge. cbn. destruct t as [|c t']; [contradiction|]. reflexivity. }
+    rewrite Hfull.
+    assert (Hkeep : forall l (x : option msg_out),
+              match x with None => {| o_text := t; o_atts := a :: as_; o_qrs := q :: qs; o_lang := rl |}
+                         | Some e => fc_merge {| o_text := t; o_atts := a :: as_; o_qrs := q :: qs; o_lang := rl |} l e end
+              = {| o_text := t; o_atts := a :: as_; o_qrs := q :: qs; o_lang := rl |}).
+    { intros l [e|]; [|reflexivity]. apply fc_merge_full; cbn; [exact Htne | discriminate | discriminate]. }
+    rewrite (Hkeep (env_default allowed)). rewrite (Hkeep base). reflexivity. }
+  cbn zeta. rewrite Ho, Hw. cbn. repeat split; reflexivity.
+Qed.
+
+(* witnesses for the other known ForContact classes: attachments and quick replies of a partly translated language
+   are filled with the base values and shadow the default language's; a content without text reports no language *)
+Example for_contact_attachments_and_quick_replies_witness :
+  let m := {| m_text := [72]; m_atts := [[98]]; m_qrs := [[121]];
+              tr_text := [(3, [[104]]); (4, [[107]])]; tr_atts := [(3, [[99]])]; tr_qrs := [(3, [[115]])] |} in
+  let o := for_contact 4 [3; 4; 1] 1 (broadcast_translations 1 [3; 4] m) in
+  let w := evaluate_message 4 [3; 4; 1] 1 m in
+  o_atts o = [[98]] /\ o_atts w = [[99]] /\ o_qrs o = [[121]] /\ o_qrs w = [[115]] /\ o_text o = o_text w.
+Proof. vm_compute. repeat split. Qed.
+
+Example for_contact_textless_locale_witness :
+  let m := {| m_text := []; m_atts := [[98]]; m_qrs := [];
+              tr_text := []; tr_atts := [(3, [[99]])]; tr_qrs := [] |} in
+  let o := for_contact 3 [3; 1] 1 (broadcast_translations 1 [3] m) in
+  let w := evaluate_message 3 [3; 1] 1 m in
+  o_text o = [] /\ o_atts o = [[99]] /\ o_lang o = nil_lang /\ o_lang w = 3.
+Proof. vm_compute. repeat split. Qed.
+
+(* router case arguments are evaluated one by one after they were chosen *)
+Definition case_arguments_gen (ev : text -> text) (contact_lang : lang) (allowed : list lang) (base : lang)
+           (args : list text) (tr : translations) : list text :=
+  map ev (case_arguments contact_lang allowed base args tr).
+
+Lemma case_arguments_gen_spec ev cl allowed base args tr :
+  length (fst (get_text cl allowed base args tr)) = length args ->
+  case_arguments_gen ev cl allowed base args tr = map ev (fst (get_text cl allowed base args tr)).
+Proof. intros H. unfold case_arguments_gen. rewrite (case_arguments_partial _ _ _ _ _ H). reflexivity. Qed.
